@@ -183,6 +183,14 @@ class Interp:
         if body.startswith("'"): return BV(parse_char(body[1:-1]), 32)
         if body.startswith('"'):
             return StrV([BV(b, 8) for b in eval(body).encode('utf-8')])
+        mnum = re.match(r'^core::num::<impl (\w+)>::(MAX|MIN)$', body)
+        if mnum:
+            t = mnum.group(1); b = INT_BITS[t]
+            if t.startswith('i'): return BV(((1 << (b-1)) - 1) if mnum.group(2) == 'MAX' else (1 << (b-1)), b)
+            return BV(((1 << b) - 1) if mnum.group(2) == 'MAX' else 0, b)
+        last = body.split('::')[-1]
+        if re.match(r'^[A-Z][A-Z0-9_]+$', last) and last in self.by_suffix and len(self.by_suffix[last]) == 1:
+            return self.call_fn(ctx, self.fns[self.by_suffix[last][0]], [])
         mvv = re.match(r'^([\w:]+)::(\w+)$', self.strip_generics(body))
         if mvv and mvv.group(2)[0].isupper() and 'promoted[' not in body:
             return Agg(mvv.group(1), [], mvv.group(2), self.variant_index(mvv.group(1), mvv.group(2)))
@@ -239,12 +247,13 @@ class Interp:
         if s.startswith('copy '):
             g, _ = self.place_ref(ctx, parse_place(s[5:]), frame)
             v = g()
-            return copy.copy(v) if isinstance(v, Agg) and all(not isinstance(f, (Agg, VecV, StrV)) for f in v.fields) else (self.deepcopy(v) if isinstance(v, Agg) else v)
+            return self.deepcopy(v) if isinstance(v, Agg) else v
         if s.startswith('move '):
             g, _ = self.place_ref(ctx, parse_place(s[5:]), frame)
             return g()
         if s.startswith('const '):
             return self.eval_const(ctx, s, frame)
+        if re.match(r'^[\w:<>, ]+$', s): return Agg('fnitem:' + s, [])
         raise Unsupported('operand ' + s)
 
     def deepcopy(self, v):
@@ -335,6 +344,10 @@ class Interp:
             return self.operand(ctx, s, frame)
         if s.startswith('[') and s.endswith(']') and '; ' not in s:
             return [self.operand(ctx, x, frame) for x in split_top(s[1:-1])]
+        mrep = re.match(r'^\[(.*); (\d+)\]$', s)
+        if mrep:
+            v = self.operand(ctx, mrep.group(1), frame)
+            return [v for _ in range(int(mrep.group(2)))]
         # closures
         mcl = re.match(r'^(\{closure@[^}]*\})( \{ (.*) \})?$', s)
         if mcl:
@@ -366,6 +379,7 @@ class Interp:
         base = ty.split('::')[-1]
         if base == 'Option': return {'None': 0, 'Some': 1}[var]
         if base == 'Result': return {'Ok': 0, 'Err': 1}[var]
+        if base == 'Ordering': return {'Less': (1 << 64) - 1, 'Equal': 0, 'Greater': 1}[var]
         if base in self.enums: return self.enums[base].index(var)
         raise Unsupported(f'enum {ty}::{var}')
 
@@ -407,6 +421,7 @@ class Interp:
         key = self.strip_generics(callee)
         key = re.sub(r"'\w+", "'_", key)
         key = re.sub(r'::<(&mut |&)?impl .*>$', '', key)
+        ctx.cur_key = key
         if key in self.models:
             return self.models[key](self, ctx, *args)
         for pat, f in self.models.items():
@@ -468,15 +483,25 @@ class Interp:
             if neg: v = (not v) if isinstance(v, bool) else z3.Not(v)
             if ctx.branch(v): return int(m.group(2))
             raise Panic('assert failed: ' + parts[1])
-        m = self.TERM_CALL.match(st)
-        if m and not st.startswith('_') is False or (m and '(' in m.group(2) is False):
-            pass
-        if m and re.match(r'^[\w\(\)\*\. :<>,&\'\[\]]+$', m.group(1)) and not self.is_rvalue_op(m.group(2)):
-            args = [self.operand(ctx, a, frame) for a in split_top(m.group(3))] if m.group(3).strip() else []
-            r = self.call(ctx, m.group(2), args)
-            _, setter = self.place_ref(ctx, parse_place(m.group(1)), frame)
-            setter(r)
-            return int(m.group(4))
+        k = st.find(') -> [return: bb')
+        if k > 0 and ' = ' in st[:k]:
+            # find the '(' matching st[k]
+            d = 0; j = k
+            while j >= 0:
+                ch = st[j]
+                if ch == ')' and not (j >= 2 and st[j-1] == "'" and False): d += 1
+                elif ch == '(':
+                    d -= 1
+                    if d == 0: break
+                j -= 1
+            lhs, callee = st[:j].split(' = ', 1)
+            argtxt = st[j+1:k]
+            if not self.is_rvalue_op(callee.strip()):
+                args = [self.operand(ctx, a, frame) for a in split_top(argtxt)] if argtxt.strip() else []
+                r = self.call(ctx, callee.strip(), args)
+                _, setter = self.place_ref(ctx, parse_place(lhs), frame)
+                setter(r)
+                return int(re.match(r'\) -> \[return: bb(\d+)', st[k:]).group(1))
         if ' = ' in st and st.endswith(';'):
             lhs, rhs = st[:-1].split(' = ', 1)
             v = self.rvalue(ctx, rhs, frame)
